@@ -89,8 +89,8 @@ MInt.__mod__ = _binop('__mod__', lambda a, b: a % b)
 
 INT_CLASSES = {}
 for _s in (1, 8, 16, 32, 64, 128):
-    INT_CLASSES['uint%d' % _s] = type('uint%d' % _s, (MInt,), {'size': _s, 'signed': False})
-    INT_CLASSES['int%d' % _s] = type('int%d' % _s, (MInt,), {'size': _s, 'signed': True})
+    INT_CLASSES['uint%d' % _s] = type('uint%d' % _s, (MInt,), {'size': _s, 'signed': False, 'limit': 1 << _s})
+    INT_CLASSES['int%d' % _s] = type('int%d' % _s, (MInt,), {'size': _s, 'signed': True, 'limit': 1 << _s})
 INT_CLASSES['moduint'] = MInt
 U = dict((s, INT_CLASSES['uint%d' % s]) for s in (1, 8, 16, 32, 64, 128))
 S = dict((s, INT_CLASSES['int%d' % s]) for s in (8, 16, 32, 64))
@@ -588,6 +588,19 @@ def family():
         add('width-twins', Op(op, s32, s8))
         add('width-twins', Op(op, Op('>>', y, C(4, 8)), Op('>>', y, C(4))))
         add('width-twins', Op(op, ExprCond(Op('+', C(0xFF, 8), C(1, 8)), x, y), ExprCond(Op('+', C(0xFF), C(1)), x, y)))
+    # --- complement of a sum that holds a complement (the neg / sbb / dec chains: !(!X + c)), alone and inside a longer xor whose other operands sort before / after a sum
+    for (X_, M_, k_, others) in ((x, C(0xFFFFFFFF), C(5), (y, Op('<<', y, C(1)), Op('-', y, z), Op('&', y, z), ExprMem(y), Sl(ExprCompose([(y, 0, 32), (z, 32, 64)]), 8, 40))),
+                                 (b, C(0xFF, 8), C(5, 8), (c, Op('<<', c, C(1, 8)), my8))):
+        S_ = Op('+', Op('^', X_, M_), k_)
+        add('not-sum', Op('^', S_, M_))
+        add('not-sum', Op('^', M_, S_))
+        add('not-sum', Op('^', Op('+', k_, Op('^', M_, X_)), M_))
+        for o_ in others:
+            add('not-sum', Op('^', S_, M_, o_))
+            add('not-sum', Op('^', Op('^', S_, o_), M_))
+            add('not-sum', Op('^', o_, Op('^', M_, S_)))
+            add('not-sum', Op('^', S_, o_, others[0], M_))
+    add('not-sum', Op('^', Op('+', Op('^', b, C(0xFF, 8)), C(5, 8)), C(0xF0, 8), C(0x0F, 8), Op('<<', c, C(1, 8))))
     # --- comparison and parity
     for e in (Op('==', C(3), C(3)), Op('==', C(3), C(4)), Op('==', C(0), C(0)), Op('==', C(0xFF, 8), C(0xFF, 8)), Op('==', C(1, 8), C(0, 8)), Op('==', C(1, 1), C(1, 1)), Op('==', SC(-1), C(0xFFFFFFFF)),
               Op('==', Op('|', x, C(1)), C(0)), Op('==', Op('|', x, C(0)), C(0)), Op('==', Op('|', x, C(0x80000000)), C(0)), Op('==', Op('|', x, y), C(0)), Op('==', Op('|', x, y, C(4)), C(0)),
@@ -662,6 +675,9 @@ def spelling_groups():
     order.append(('mem-addr', [ExprMem(Op('+', x, y)), ExprMem(Op('+', y, x))]))
     order.append(('mem-addr3', [ExprMem(Op('+', x, y, C(4)), 8), ExprMem(Op('+', C(4), y, x), 8), ExprMem(Op('+', Op('+', y, C(4)), x), 8)]))
     order.append(('nested-ops', [Op('+', Op('*', x, y), z), Op('+', z, Op('*', y, x))]))
+    for lbl_, o_ in (('id', y), ('shift', Op('<<', y, C(1))), ('and', Op('&', y, z))):
+        S_, M_ = Op('+', Op('^', x, C(0xFFFFFFFF)), C(5)), C(0xFFFFFFFF)
+        order.append(('not-sum:%s' % lbl_, [Op('^', Op('^', S_, M_), o_), Op('^', S_, Op('^', M_, o_)), Op('^', Op('^', o_, S_), M_), Op('^', o_, M_, S_), Op('^', M_, Op('^', o_, S_))]))
     order.append(('xor-cancel', [Op('^', x, y, x), Op('^', x, x, y), Op('^', y, x, x)]))
     for label, base in (('x', x), ('x+y', Op('+', x, y)), ('x+y*4', Op('+', x, Op('*', y, C(4)))), ('x+4', Op('+', x, C(4))), ('x+y+4', Op('+', x, y, C(4))), ('x+y+z', Op('+', x, y, z))):
         neutral.append(('+0:%s' % label, [base, Op('+', base, C(0)), Op('+', C(0), base), Op('+', Op('+', base, C(1)), C(0xFFFFFFFF)), Op('+', Op('+', base, C(0xFFFFFFFC)), C(4)),
